@@ -113,7 +113,7 @@ func connect(transport string, rng *rand.Rand, progress *int64, fin func(qnet.En
 }
 
 func c10(c *wk.Ctx) {
-	c.Note("rule", "each plan: one connection over a transport (harness stream with yields and read fragmentation, net.Pipe, unix, tcp, tls, fd-passing pipe), 2-16 sender goroutines released by a barrier, each sending its own numbered messages (payload 0 B - 256 KiB, content a keyed function of (sender, seq)) through EndPoint.Send; the receiving endpoint has an 'all' handler plus 2-5 handlers with overlapping filters (sender set, type, seq parity), queues sized for the whole traffic; in a third of the plans a further handler with a full one-slot queue selects everything as well; in half of the plans 1-4 one-shot handlers (keep = false) occupy lower slots and ReceiveAny handlers come and go during the traffic (each takes exactly one message). Oracle: the 'all' handler gets every (sender, seq) exactly once with intact payload and each sender's messages in order; every other handler gets exactly its filter applied to that sequence, in the same order; loss is decided by the quiescence detector. Stream churn: the receiver's handler set grows to 13-32 handlers and shrinks again step by step to the two real ones ('all', 'even ids'), a numbered batch after every change: each real handler gets exactly its selection, in order (sweep over handlers registered x handlers removed first). Distinct non-trivial = distinct (transport, plan) with at least two senders whose messages interleaved at the receiver.")
+	c.Note("rule", "each plan: one connection over a transport (harness stream with yields and read fragmentation, net.Pipe, unix, tcp, tls, fd-passing pipe), 2-16 sender goroutines released by a barrier, each sending its own numbered messages (payload 0 B - 256 KiB, content a keyed function of (sender, seq)) through EndPoint.Send; the receiving endpoint has an 'all' handler plus 2-5 handlers with overlapping filters (sender set, type, seq parity), queues sized for the whole traffic; in a third of the plans a further handler with a full one-slot queue selects everything as well; in half of the plans 1-4 one-shot handlers (keep = false) occupy lower slots and ReceiveAny handlers come and go during the traffic (each takes exactly one message); in half of the plans a handler registered with AddHandler (callback slow now and then) must be given an in-order subsequence of the arrivals. Oracle: the 'all' handler gets every (sender, seq) exactly once with intact payload and each sender's messages in order; every other handler gets exactly its filter applied to that sequence, in the same order; loss is decided by the quiescence detector. Stream churn: the receiver's handler set grows to 13-32 handlers and shrinks again step by step to the two real ones ('all', 'even ids'), a numbered batch after every change: each real handler gets exactly its selection, in order (sweep over handlers registered x handlers removed first). Distinct non-trivial = distinct (transport, plan) with at least two senders whose messages interleaved at the receiver.")
 	plansPer := c.Pick(8, 300)
 	c.Cases("plan", len(c10transports)*plansPer, func(i int, rng *rand.Rand) {
 		transport := c10transports[i%len(c10transports)]
@@ -185,10 +185,28 @@ func c10one(c *wk.Ctx, i int, rng *rand.Rand, transport string) {
 		oneShots = 1 + rng.Intn(4)
 	}
 	oneShotQueues := make([]chan *qnet.Message, oneShots)
+	useAdd := rng.Intn(2) == 0
+	var addMu sync.Mutex
+	var addGot []recvItem
 	var lateAny int32
 	stopAny := make(chan struct{})
 	anyDone := make(chan struct{})
 	snd, recv, cleanup, err := connect(transport, rng, &progress, func(e qnet.EndPoint) {
+		if useAdd {
+			// a handler registered with AddHandler: the endpoint feeds the callback from its own 10-slot
+			// queue; the callback is slow now and then, so that a backlog builds up (messages that find the
+			// queue full may be refused, but what is delivered must come in arrival order)
+			e.AddHandler(func(hdr *qnet.Header) (bool, bool) { return true, true }, func(m *qnet.Message) error {
+				addMu.Lock()
+				addGot = append(addGot, recvItem{m.Header.Service, m.Header.ID, m.Header.Type})
+				n := len(addGot)
+				addMu.Unlock()
+				if n%23 == 5 {
+					time.Sleep(time.Duration(200+n%7*100) * time.Microsecond)
+				}
+				return nil
+			}, nil)
+		}
 		for k := range oneShotQueues {
 			oneShotQueues[k] = make(chan *qnet.Message, 2)
 			e.MakeHandler(func(hdr *qnet.Header) (bool, bool) { return true, false }, oneShotQueues[k], nil)
@@ -342,6 +360,25 @@ func c10one(c *wk.Ctx, i int, rng *rand.Rand, transport string) {
 		if k > 0 && all.got[k-1].sender != it.sender {
 			interleavings++
 		}
+	}
+	// the AddHandler callback: an in-order subsequence of the arrivals (refusals when its queue is full are allowed)
+	if useAdd {
+		addMu.Lock()
+		got := append([]recvItem{}, addGot...)
+		addMu.Unlock()
+		pos := 0
+		for k, it := range got {
+			for pos < len(all.got) && all.got[pos] != it {
+				pos++
+			}
+			if pos == len(all.got) {
+				c.Viol("plan", i, "addhandler=order/"+transport, fmt.Sprintf("the AddHandler callback was given (sender %d, seq %d) as its delivery #%d, out of arrival order (or twice)", it.sender, it.seq, k), detail)
+				return
+			}
+			pos++
+		}
+		c.Count("addhandler_deliveries", int64(len(got)))
+		c.Count("addhandler_refused_queue_full", int64(len(all.got)-len(got)))
 	}
 	// every other handler == its filter applied to the arrival sequence
 	for _, h := range handlers[1:] {
